@@ -118,17 +118,18 @@ Definition check_adm_case (c : sarg * sarg * list aop * Z) : bool :=
   let '(v, r, ops, expected) := c in Z.eqb (hash_zll 0 (adm_case_trace v r ops)) expected.
 
 Definition enc_u (u : upd) : Z := match u with UNone => 0 | UUtc => 1 | UOther => 2 end.
+Definition enc_pv (v : pv) : Z := match v with PNone => 0 | PFalsy => 1 | PTruthy => 2 end.
 Fixpoint btrace (s : bee) (ops : list bop) : list (list Z) :=
   match ops with
   | [] => []
-  | p :: r => let '(s', e) := bstep s p in [enc_err e; zb (bin s'); zb (bmax s'); enc_u (blast s')] :: btrace s' r
+  | p :: r => let '(s', e) := bstep s p in [enc_err e; zb (bin s'); enc_pv (bmax s'); enc_u (blast s')] :: btrace s' r
   end.
-Definition bee_case_trace (d : bool) (u : upd) (m : bool) (ops : list bop) : list (list Z) :=
+Definition bee_case_trace (d : bool) (u : upd) (m : pv) (ops : list bop) : list (list Z) :=
   match bctor d u m with
-  | (Some s, _) => [0; zb (bin s); zb (bmax s); enc_u (blast s)] :: btrace s ops
+  | (Some s, _) => [0; zb (bin s); enc_pv (bmax s); enc_u (blast s)] :: btrace s ops
   | (None, e) => [[enc_err e]]
   end.
-Definition check_bee_case (c : bool * upd * bool * list bop * Z) : bool :=
+Definition check_bee_case (c : bool * upd * pv * list bop * Z) : bool :=
   let '(d, u, m, ops, expected) := c in Z.eqb (hash_zll 0 (bee_case_trace d u m ops)) expected.
 
 Definition check_cat_case (c : ckind * carg * Z) : bool :=
